@@ -76,8 +76,10 @@ pub fn stress_one_focus(threads: usize, seed: u64, warm: bool, calls: usize, for
     let writer = seed % 4 == 2 || seed % 4 == 3;
     // first-use races (never in warmed-up runs): one thread sits on the known-values guard while the others make their first
     // formatting call; or every thread starts with the same operation, so that several threads race on one lazy's first use
-    let holder = !warm && threads >= 2 && seed % 8 == 4;
+    let forced_holder = forced_focus.as_deref() == Some("holder");
+    let holder = forced_holder || (!warm && threads >= 2 && seed % 8 == 4);
     let focus: Option<&'static str> = match &forced_focus {
+        Some(f) if f == "holder" => Some("format"),
         Some(f) => OPS.iter().find(|o| **o == f.as_str()).copied(),
         None => if !warm && (seed % 8 == 5 || seed % 8 == 0) { Some(OPS[((seed / 8) % OPS.len() as u64) as usize]) } else { None },
     };
@@ -188,6 +190,7 @@ pub fn campaign(outdir: &str, seed: u64, thorough: bool) {
     let mut plan: Vec<(usize, bool, u64, Option<String>)> = vec![];
     let reps = if thorough { 12 } else { 3 };
     for op in OPS { for rep in 0..reps { for threads in [2usize, 8] { let _ = rep; plan.push((threads, false, rng.next() | 7, Some(op.to_string()))); } } }
+    for rep in 0..(reps * 2) { plan.push(([2usize, 3, 8][rep % 3], false, rng.next(), Some("holder".to_string()))); }
     for r in 0..rounds { plan.push(([2usize, 3, 4, 8, 16][r % 5], r % 3 == 2, rng.next(), None)); }
     for (threads, warm, s, focus) in plan {
         let mut args: Vec<String> = vec!["c20-stress-one".into(), threads.to_string(), s.to_string(), (warm as u8).to_string(), "12".into()];
